@@ -14,7 +14,7 @@ from vf import S, Lst, sx_opt, unS
 
 LANGS = ['typescript', 'kotlin', 'swift', 'scala', 'go', 'python']
 PREFIXES = ['', 'OP', 'X_']
-ACRONYMS = [[], [], ['id', 'api'], ['id', 'url', 'http']]
+ACRONYMS = [[], [], ['id', 'api'], ['id', 'url', 'http'], ['xy', 'yZw', 'wQr']]
 EXT = {'typescript': 'ts', 'kotlin': 'kt', 'swift': 'swift', 'scala': 'scala', 'go': 'go', 'python': 'py'}
 
 
@@ -27,7 +27,7 @@ def cfg_for(lang, k):
     if lang == 'scala':
         return {'package': 'com.example'}
     if lang == 'go':
-        return {'package': 'example', 'uppercase_acronyms': ACRONYMS[k % 4]}
+        return {'package': 'example', 'uppercase_acronyms': ACRONYMS[k % 5]}
     return {}
 
 
@@ -153,6 +153,11 @@ pub struct H { pub u: U }
 pub struct UserId { pub a: u32 }
 #[typeshare]
 pub type Ids = Vec<UserId>;
+'''),
+    'C09-go-acronym-inner': ('go', {'package': 'p', 'uppercase_acronyms': ['xy', 'yZw', 'wQr']}, '''
+#[typeshare]
+#[serde(tag = "type", content = "content")]
+pub enum E { XyZwQr { a: u32 }, Other(u32) }
 '''),
     'C09-const-type': ('typescript', {}, '''
 #[typeshare]
